@@ -608,6 +608,10 @@ class Engine:
         if val is None:
             # enum unit variant written as a constant?
             val = ConstV(name)
+        try:
+            val.const_name = name          # the evaluated value remembers which named constant it came from
+        except AttributeError:
+            pass
         self.const_cache[name] = val
         return val
 
